@@ -38,7 +38,17 @@ Fresh(n) ==
   /\ round' = 0 /\ doneRound' = {} /\ qStart' = [t \in AllT |-> 0]
   /\ reqRound' = [o \in Objs |-> -1] /\ soloQ' = 0 /\ soloStart' = FALSE
 
-TInit == /\ l = 1 /\ T = {} /\ areg = {}
+\* coverage counters (how often each clause actually demanded something)
+Cnt(i) == TLCSet(i, TLCGet(i) + 1)
+CFree == 11   \* free events judged
+CFreeReg == 12   \* ... while at least one other thread was registered
+CImm == 13    \* ... executed at once inside the request call
+CQuiet == 14  \* thread-count clause enforced
+CDrain == 15  \* drain clause enforced (soloQ >= 2)
+CRetire == 16
+
+TInit == /\ \A i \in 11..16 : TLCSet(i, 0)
+         /\ l = 1 /\ T = {} /\ areg = {}
          /\ inCall = [t \in AllT |-> "none"] /\ arg = [t \in AllT |-> -1]
          /\ arefs = [t \in AllT |-> {}] /\ retired = {} /\ afreed = {}
          /\ mw = [o \in Objs |-> {}]
@@ -82,6 +92,7 @@ Call ==
                /\ arg' = [arg EXCEPT ![t] = Ev.o]
                \* C05: registered threads not inside a quiescent state / pause
                /\ mw' = [mw EXCEPT ![Ev.o] = {u \in areg \ {t} : inCall[u] \in {"none", "retire"}}]
+               /\ Cnt(CRetire)
                /\ UNCHANGED areg
                /\ Rounds(t, FALSE, FALSE, TRUE, FALSE)
           [] op = "pause" ->
@@ -126,19 +137,22 @@ Free ==
   /\ mw[Ev.o] = {}                                        \* C05: grace period
   /\ \A t \in T : Ev.o \notin arefs[t]                    \* C05: no reference held (implied by the above)
   /\ (\E t \in T : inCall[t] = "retire" /\ arg[t] = Ev.o) => (\A u \in areg : inCall[u] = "retire" /\ arg[u] = Ev.o)
+  /\ Cnt(CFree)
+  /\ (areg \ {Ev.t} # {}) => Cnt(CFreeReg)
+  /\ (\E t \in T : inCall[t] = "retire" /\ arg[t] = Ev.o) => Cnt(CImm)
   /\ afreed' = afreed \cup {Ev.o}
   /\ UNCHANGED <<T, areg, inCall, arg, arefs, retired, mw>> /\ NoRounds
 
 \* every thread is at a call boundary: the reported thread count is exact (C06)
 Quiet ==
   /\ Ev.e = "quiet"
-  /\ (\A t \in T : inCall[t] = "none") => Ev.tc = Cardinality(areg)
+  /\ (\A t \in T : inCall[t] = "none") => (Ev.tc = Cardinality(areg) /\ Cnt(CQuiet))
   /\ UNCHANGED <<T, areg, inCall, arg, arefs, retired, afreed, mw>> /\ NoRounds
 
 \* end of the drain phase (C06)
 Drain ==
   /\ Ev.e = "drain"
-  /\ soloQ >= 2 => (Ev.unfreed = 0 /\ Ev.orphP /\ Ev.orphC /\ retired \subseteq afreed)
+  /\ soloQ >= 2 => (Ev.unfreed = 0 /\ Ev.orphP /\ Ev.orphC /\ retired \subseteq afreed /\ Cnt(CDrain))
   /\ UNCHANGED <<T, areg, inCall, arg, arefs, retired, afreed, mw>> /\ NoRounds
 
 Reset == /\ Ev.e = "reset" /\ Fresh(Ev.threads)
@@ -150,5 +164,6 @@ TSpec == TInit /\ [][TNext]_tvars
 \* C06: freed by the end of the third full round after the request
 ThreeRounds == \A o \in retired : (reqRound[o] >= 0 /\ round >= reqRound[o] + 4) => o \in afreed
 
-TraceAccepted == TLCGet("stats").diameter - 1 = Len(JTrace)
+TraceAccepted == /\ PrintT(<<"QCOV", TLCGet(11), TLCGet(12), TLCGet(13), TLCGet(14), TLCGet(15), TLCGet(16)>>)
+                 /\ TLCGet("stats").diameter - 1 = Len(JTrace)
 =============================================================================
